@@ -258,6 +258,65 @@ func checkSetGate(p *Prog, r *Report, kt *kindTable) {
 			good = true
 		}
 	})
+	// relationship values: stored only as a string under ToOne, as a []string otherwise
+	nRel, relBad := 0, ""
+	eachInstrOf(append([]*ssa.Function{f}, stringHelpers(f)...), func(ins ssa.Instruction) {
+		mu, ok := ins.(*ssa.MapUpdate)
+		if !ok || !isGiven(mu.Value) {
+			return
+		}
+		if _, fl, ok := fieldLoad(mu.Map); !ok || fl != "data" {
+			return
+		}
+		var toOne, isStr, isList int // 1 true, -1 false, 0 unknown
+		attrGate := false
+		for _, ef := range expandFacts(factsAt(mu.Block())) {
+			if _, fl, ok := fieldLoad(ef.Cond); ok && fl == "ToOne" {
+				if ef.Truth {
+					toOne = 1
+				} else {
+					toOne = -1
+				}
+			}
+			if ex, ok := ef.Cond.(*ssa.Extract); ok && ex.Index == 1 {
+				if ta, ok := ex.Tuple.(*ssa.TypeAssert); ok && isGiven(ta.X) {
+					val := -1
+					if ef.Truth {
+						val = 1
+					}
+					switch fmtTypeString(ta.AssertedType) {
+					case "string":
+						isStr = val
+					case "[]string":
+						isList = val
+					}
+				}
+			}
+			if bo, ok := ef.Cond.(*ssa.BinOp); ok && bo.Op == token.EQL && ef.Truth {
+				if ex, ok := bo.Y.(*ssa.Extract); ok {
+					if c, ok := ex.Tuple.(*ssa.Call); ok && c.Common().StaticCallee() != nil && c.Common().StaticCallee().Name() == "GetAttrType" {
+						attrGate = true
+					}
+				}
+				if ex, ok := bo.X.(*ssa.Extract); ok {
+					if c, ok := ex.Tuple.(*ssa.Call); ok && c.Common().StaticCallee() != nil && c.Common().StaticCallee().Name() == "GetAttrType" {
+						attrGate = true
+					}
+				}
+			}
+		}
+		if attrGate {
+			return
+		}
+		nRel++
+		if !((toOne == 1 && isStr == 1) || (toOne == -1 && isList == 1)) {
+			relBad = p.describe(mu)
+		}
+	})
+	if nRel > 0 {
+		r.decide(relBad == "", "R1.set-gate", "(*SoftResource).Set:relationship-gate", p.pos(f.Pos()), "a relationship value is stored only as a string under ToOne and as a []string otherwise",
+			"SoftResource.Set stores a relationship value ("+relBad+") without having established that it is a string for a to-one and a []string for a to-many relationship: a value of another type reaches the resource")
+	}
 	r.decide(good, "R1.set-gate", "(*SoftResource).Set:attribute-gate", p.pos(f.Pos()), "a value is stored only when GetAttrType(%T of the value) equals the attribute's kind and nullability",
 		"SoftResource.Set does not gate attribute values on both the kind and the nullability that GetAttrType derives from the value's Go type: a value of another type (e.g. *T for a non-nullable attribute) can be stored")
 	_ = kt
